@@ -24,6 +24,7 @@ func init() {
 				}
 				freshAfterHandoff(c, c.fn("TrzszFilter.wrapOutput"), "TrzszFilter.wrapOutput", isAddRecv)
 			})
+			c.run("C05-R8", "MUST-PASS: the wrapper's pumps hand on exactly what they read and end only on EOF", c05R8)
 			c.run("C05-R7", "ORDER: exit status passed on", c05R7)
 		})
 }
@@ -533,5 +534,65 @@ func c05R7(c *Ctx) {
 	})
 	if n == 0 {
 		c.bad("TrzszMain/exit-code", c.pos(f.Pos()), "no return after waiting for the wrapped command")
+	}
+}
+
+// c05R8: the wrapper's own two pumps. The input pump hands exactly buffer[0:n] of every non-empty read to sendInput and
+// ends only when the terminal's input reported EOF; the output pump likewise ends only on EOF of the remote output.
+func c05R8(c *Ctx) {
+	isEOF := func(v ssa.Value) bool {
+		u, ok := strip(v).(*ssa.UnOp)
+		if !ok || u.Op != token.MUL {
+			return false
+		}
+		g, isG := u.X.(*ssa.Global)
+		return isG && g.Name() == "EOF"
+	}
+	for _, name := range []string{"TrzszFilter.wrapInput", "TrzszFilter.wrapOutput"} {
+		f := c.fn(name)
+		var read *ssa.Call
+		eachInstr(f, func(in ssa.Instruction) {
+			if call, ok := in.(*ssa.Call); ok && call.Call.IsInvoke() && call.Call.Method.Name() == "Read" {
+				read = call
+			}
+		})
+		if read == nil {
+			c.lost("Read in " + name)
+		}
+		n, rerr := extractOf(read, 0), extractOf(read, 1)
+		eofEdge := func(from, to *ssa.BasicBlock) bool {
+			return factCmp(edgeFactsTo(from, to), token.EQL, isValue(rerr), isEOF)
+		}
+		hit, path := reachFromE(read.Block(), instrIndex(read)+1, isReturn, nil, eofEdge)
+		c.check(hit == nil, name+"/ends-only-on-EOF", c.ipos(read), "the pump ends only on the edge where its source reported EOF", "the pump can end although its source is still open: that direction of the session goes dead", c.pathStr(path)...)
+		if name != "TrzszFilter.wrapInput" {
+			continue
+		}
+		var deliver ssa.Instruction
+		exact := false
+		for _, ci := range callsIn(f, idIs("(*trzsz.TrzszFilter).sendInput")) {
+			sl, isS := ci.Common().Args[1].(*ssa.Slice)
+			if isS && sameValue(sl.X, read.Call.Args[0]) {
+				deliver = ci.(ssa.Instruction)
+				exact = (sl.Low == nil || isConstIntV(0)(sl.Low)) && sl.High != nil && sameValue(sl.High, n)
+			}
+		}
+		c.check(deliver != nil && exact, name+"/delivers-buf[:n]", c.ipos(read), "what is handed to the input handler is exactly buffer[0:n] of the read just done", "the input handler is not given exactly the bytes the read returned")
+		if deliver == nil {
+			continue
+		}
+		empty := func(from, to *ssa.BasicBlock) bool {
+			fs := edgeFactsTo(from, to)
+			return factCmp(fs, token.LEQ, isValue(n), isConstIntV(0)) || factCmp(fs, token.EQL, isValue(n), isConstIntV(0)) || factCmp(fs, token.LSS, isValue(n), isConstIntV(1))
+		}
+		hit, path = reachFromE(read.Block(), instrIndex(read)+1, func(in ssa.Instruction) bool { return in == ssa.Instruction(read) || isReturn(in) }, func(in ssa.Instruction) bool { return in == deliver }, empty)
+		c.check(hit == nil, name+"/no-read-dropped", c.ipos(read), "typed bytes (n > 0) always reach the input handler before the next read or the exit", "typed bytes can be skipped by the input pump", c.pathStr(path)...)
+		// leaving the pump closes the remote side's input (the wrapped command sees EOF)
+		closes := func(in ssa.Instruction) bool {
+			ci, ok := in.(ssa.CallInstruction)
+			return ok && ci.Common().IsInvoke() && ci.Common().Method.Name() == "Close" && isFieldOfName(ci.Common().Value, "serverIn")
+		}
+		hit, path = reachFromE(read.Block(), instrIndex(read)+1, isReturn, closes, nil)
+		c.check(hit == nil, name+"/EOF-closes-remote-input", c.ipos(read), "when the terminal's input ends the remote side's input is closed", "the pump can end without closing the remote side's input", c.pathStr(path)...)
 	}
 }
